@@ -5,6 +5,7 @@
 From Coq Require Import ZArith Reals Floats Lra Bool List.
 From Flocq Require Import Core.Core IEEE754.BinarySingleNaN IEEE754.PrimFloat.
 From Geo Require Import Base.GoPrim Base.F64 Gen.Bounds Model.Bounds Proofs.C19_R1 Proofs.C10_S1.
+From Geo Require Import Proofs.C19_Expanded Proofs.C19_Remainder.
 Import ListNotations.
 Local Open Scope R_scope.
 
@@ -263,18 +264,11 @@ Proof.
 Qed.
 
 (** ** RectBound() = expanded(2 eps, 0).PolarClosure() contains the running bound.
-    Soundness of the two interval expansions by a non-negative margin belongs to C19
-    ("expanded_sound"); until those lemmas land they are premises of this section (they are
-    statements about r1/s1 intervals and rounding of one addition / one math.Remainder, not
-    about the bounder). *)
+    Soundness of the two interval expansions by a non-negative margin is C19's
+    [C19_r1_expanded_sound] (Proofs/C19_Expanded.v) and [C19_s1_expanded_sound]
+    (Proofs/C19_Remainder.v, which proves math.Remainder(x, 2 pi) exact); the theorems of this
+    section are closed. *)
 Section RectBound.
-  Hypothesis C19_r1_expanded_sound : forall i m, wf1 i -> nonnan m -> (0 <= rank m < top) ->
-    wf1 (r1_Interval_Expanded i m) /\
-    forall p, nonnan p -> mem1 i p -> mem1 (r1_Interval_Expanded i m) p.
-  Hypothesis C19_s1_expanded_sound : forall i m, valid_s1 i -> nonnan m -> (0 <= rank m < top) ->
-    valid_s1 (s1_Interval_Expanded i m) /\
-    forall x, inrange x -> mem_s1 i x -> mem_s1 (s1_Interval_Expanded i m) x.
-
   Lemma validlat_intersection_sup i : wf1 i ->
     wf1 (r1_Interval_Intersection i s2_validRectLatRange) /\
     forall p, nonnan p -> - rpi2 <= rank p <= rpi2 -> mem1 i p ->
